@@ -57,6 +57,12 @@ def chosen(rnd, tier):
             q = b'SSH-2.0-Decoy_1.0 quoted'
             line[decoy_at:decoy_at + len(q)] = q
         cases.append({'others': [list(bytes(line))], 'parts': {'major': 2, 'minor': 0, 'software': list(b'OpenSSH_9.%d' % k), 'comments': list(b'')}, 'eol': 'crlf' if k % 2 else 'lf'})
+    # control characters that text-level whitespace stripping would swallow (0x1c..0x1f) at the very end of the identification string: they
+    # are part of the line, shown as '?' and make the banner non-conforming like anywhere else
+    for k, ctl in enumerate((0x1c, 0x1d, 0x1e, 0x1f)):
+        cases.append({'others': [], 'parts': {'major': 2, 'minor': 0, 'software': list(b'OpenSSH_9.6' + bytes([ctl])), 'comments': list(b'')}, 'eol': 'crlf' if k % 2 else 'lf'})
+        cases.append({'others': [list(b'hello')], 'parts': {'major': 2, 'minor': 0, 'software': list(b'dropbear_2022.83'), 'comments': list(b'note' + bytes([ctl]))}, 'eol': 'lf' if k % 2 else 'crlf'})
+        cases.append({'others': [], 'parts': {'major': 1, 'minor': 99, 'software': list(b'Srv_1.0' + bytes([ctl, ctl])), 'comments': list(b'')}, 'eol': 'crlf'})
     cases.append({'others': [], 'parts': {'major': 2, 'minor': 0, 'software': list(b'OpenSSH_8.9p1'), 'comments': list(b' '.join([b'word%d' % i for i in range(60)]))}, 'eol': 'crlf'})
     cases.append({'others': [list(b'x' * 254), list(b'y' * 255), list(b'z' * 257)], 'parts': {'major': 2, 'minor': 0, 'software': list(b'dropbear_2022.83'), 'comments': list(b'')}, 'eol': 'crlf'})
     return cases
